@@ -205,6 +205,15 @@ def rule_enum_siblings(ctx, rep):
         rep.check("R-ENUM-SIBLINGS", q, fn.loc(), ok, "symlink-filter",
                   "enumerates project files without `not path.is_symlink()`: a symlink pointing outside the target is read/written through "
                   "(its sibling enumerator filters symlinks)")
+        if q.endswith(".files_for_directory"):
+            # the project listing keeps *every* regular file: what is left out by name or location is decided by match_files from the user's
+            # patterns and the documented defaults (and the SAST codemods apply no default excludes at all).  A path-based condition in the
+            # enumerator (hidden directories, cache directory names, size, suffix) silently takes files out of every selection -- and when it
+            # looks at the absolute path, a project checked out below such a directory has no files at all.
+            KIND_TESTS = ("$E.is_file()", "$E.is_symlink()", "$E.is_dir()", "$E.exists()", "os.path.isfile($E)", "os.path.islink($E)", "os.path.isdir($E)", "os.path.exists($E)")
+            extra = sorted({txt for _leaf, f in enum_leaves for _pol, txt in f if txt not in KIND_TESTS})
+            rep.check("R-ENUM-SIBLINGS", q, fn.loc(), not extra, "kind-tests-only",
+                      f"the project enumeration also filters by {extra[:3]}: files the user's include patterns (or a tool's findings) select are never listed")
 
 
 def rule_line_suffix(ctx, rep):
